@@ -207,7 +207,8 @@ Section Core.
       cbn [subst_e]. specialize (Hrel x).
       destruct (lookup x ei) as [r1|], (lookup x es) as [r2|]; try contradiction.
       + destruct Hrel as [y|a ix vs Hv Hi|e0 v Hv Hi|a dims lbs sd Hf Hi]; try (apply eval_idx_congr, Hk).
-        apply eval_idx_congr. apply merge_rel; assumption.
+        * cbn [eval]. rewrite (eval_inv st e0 HI Hi). exact Hv.
+        * apply eval_idx_congr. apply merge_rel; assumption.
       + apply eval_idx_congr, Hk.
     - cbn [inq_free_e] in Hq. cbn [subst_e eval]. rewrite IH by exact Hq. reflexivity.
     - cbn [inq_free_e] in Hq. apply andb_true_iff in Hq as [Hq1 Hq2].
